@@ -163,6 +163,14 @@ def scnMeasure (_args impl : List String) : Option (String × String) :=
       else if d ≠ "count=1" then "FAIL iteration-not-counted-once" else "ok")
   | _ => some ("-", "FAIL no-impl-output")
 
+/-- `scn.measuremany <n>` — no recorded duration may be shorter than the body's own measurement -/
+def scnMeasureMany (_args impl : List String) : Option (String × String) :=
+  match impl with
+  | a :: _ => some ("-", if a = "shorterThanBody=0" then "ok"
+      else if a.startsWith "shorterThanBody=" then s!"FAIL recorded-duration-shorter-than-the-body-took-{" ".intercalate impl}"
+      else s!"FAIL {a}")
+  | [] => some ("-", "FAIL no-impl-output")
+
 /-- `scn.counts` — per run: ground truth / result / metrics (+ number of setup samples) must agree -/
 def scnCounts (_args impl : List String) : Option (String × String) :=
   let one : List String → String
